@@ -47,6 +47,10 @@ CLAIMED.update({
  'C11': dict(text='Serializer<MemPacker>::pack/unpack run symbolically: every container handler (POD, string, vector, vector<bool>, array, optional, variant, pair/tuple, map, set, shared_ptr identity) and the real serializeOp of flat classes with every scalar member symbolic (doubles as arbitrary bit patterns); z3 decides that the unpacked object equals the original member by member (bit-exact), that the size pass equals the write pass, that unpack consumes exactly the packed bytes, and that re-packing gives the same bytes (same length where shared-pointer identities - raw addresses - are involved).',
              note='containers of 2-3 elements; EclipseState/Schedule/SummaryConfig and all pointer-rich classes (Well, Group, UDQConfig, ...) are outside: a member dropped from their serializeOp is not seen', design='4/C11'),
 })
+CLAIMED.update({
+ 'C19': dict(text='A DeckRecord with symbolic int/string values and a symbolic defaulted pattern is written with the real DeckRecord::write/DeckItem::write_vector/DeckOutput code (n* collapsing, separators, record end) to an in-memory stream, then tokenised and scanned back through the real RawRecord/ParserRecord::parse/ParserItem::scan/StarToken path; z3 decides on every path that values and defaulted flags are recovered and that writing the re-read record reproduces the text.',
+             note='4 single-valued items; ints in (-100,1000) for two items, strings of 3 chars incl. embedded blank/slash/star; doubles, data arrays with line splitting, TITLE/code/table-collection shapes and FileDeck outside; ostringstream replaced by the stream model', design='4/C19'),
+})
 NA = {
 }
 ALL = ['C%02d' % i for i in range(1, 21)]
